@@ -75,6 +75,10 @@ def setup(sess, inline=()):
 
     def th(name):
         def f(e, o, a, k):
+            if name == "join":
+                # the wait-for argument (DESIGN 6) needs join() to WAIT for the thread: a timeout turns it into a poll
+                tmo = a[0] if a else k.get("timeout")
+                e.prove("C14:join-waits-for-the-thread(no-timeout)", tmo is None, props=("C12", "C13", "C14"))
             e.st.ghost.setdefault("events", []).append((name, o))
             return None
         return f
@@ -96,6 +100,19 @@ def worker_obj(eng, cls, fields=None):
     f = {"_inbox": q, "_timeout": Fl(Real("timeout")), "_logger": None}
     f.update(fields or {})
     return st.new_obj(cls, f), q
+
+
+
+def detection_obj(eng, with_ts=False):
+    """A detection as split() yields it: start / end are readable on the region itself and through the (deprecated)
+    meta object -- the same values --, duration on the region."""
+    st, en = Fl(Real("start")), Fl(Real("end"))
+    mf = {"start": st, "end": en}
+    if with_ts:
+        mf["timestamp"] = Opq(tag="time")
+    meta = eng.st.new_obj("IMeta", mf)
+    reg = eng.st.new_obj("IRegion", {"meta": meta, "duration": Fl(Real("duration")), "start": st, "end": en})
+    return meta, reg
 
 
 def events(eng):
@@ -302,12 +319,12 @@ def unit_notify(sess, ctx):
                 evs = events(e)
                 # wait-for condition: the tokenizer thread has been stopped AND joined before any observer is stopped
                 e.prove("C14:stop_all:observers-stopped-only-after-the-tokenizer-was-joined",
-                        ev[0] == "obs.stop" and ("join", me) in evs and evs.index(("join", me)) < evs.index(ev), props=P1214)
+                        ev[0] == "obs.stop" and ("join", me) in evs and evs.index(("join", me)) < evs.index(ev), props=P1214 + P13)
             gh["obs_check"] = chk
             eng.run_function(ctx.fi(QW + "TokenizerWorker.stop_all"), [], {}, me)
             ev = events(eng)
             eng.prove("C14:stop_all:tokenizer-gets-the-stop-marker-then-is-joined-first",
-                      len(ev) >= 2 and ev[0][0] == "put" and ev[0][2] == STOP and ev[0][1] == q and ev[1] == ("join", me), props=P1214)
+                      len(ev) >= 2 and ev[0][0] == "put" and ev[0][2] == STOP and ev[0][1] == q and ev[1] == ("join", me), props=P1214 + P13)
             eng.prove("C14:stop_all:reader-closed-last", ev[-1] == ("reader.close", rd) and
                       sum(1 for x in ev if x[0] == "reader.close") == 1, props=P1214 + P13)
         return None
@@ -339,8 +356,7 @@ def unit_tokenizer_run(sess, ctx):
                 return
             j = Int("j")
             eng.assume(j >= 1)
-            meta = eng.st.new_obj("IMeta", {"start": Fl(Real("start")), "end": Fl(Real("end"))})
-            reg = eng.st.new_obj("IRegion", {"meta": meta, "duration": Fl(Real("duration"))})
+            meta, reg = detection_obj(eng)
             me = gh["me"]
             dets0 = eng.st.heap[me.oid]["_detections"]
             nd = Int("n_detections_so_far")
@@ -424,14 +440,23 @@ def unit_tokenizer_init_read(sess, ctx):
             eng.ctor_contracts["Queue"] = lambda e, a, k: e.st.new_obj("IQueue", {})
             me = eng.st.new_obj("TokenizerWorker", {})
             obs = Opq(tag="observers")
-            kw = {"min_dur": Opq(tag="min_dur"), "max_dur": Opq(tag="max_dur"), "energy_threshold": Absentable(Bool("has_eth"), Opq(tag="eth"))}
+            # every keyword split() reads for a reader input, each with a symbolic presence flag
+            KEYS = ("min_dur", "max_dur", "max_silence", "drop_trailing_silence", "strict_min_dur", "validator", "val",
+                    "energy_threshold", "eth", "use_channel", "uc")
+            kw = {K: Absentable(Bool("has_" + K), Opq(tag=K)) for K in KEYS}
+
+            def same_kw(orig, got):
+                if isinstance(got, Absentable):
+                    return got.value is orig.value and z3.is_expr(got.present) and got.present.eq(orig.present)
+                return False
             eng.run_function(ctx.fi(QW + "TokenizerWorker.__init__"), [rd, obs], dict(kw), me)
             h = eng.st.heap[me.oid]
             ok = len(calls) == 1 and not calls[0][0]
             k = calls[0][1] if ok else {}
             eng.prove("C12:init:regions-are-split(input=the-worker,**kwargs)",
-                      ok and k.get("input") == me and k.get("min_dur") is kw["min_dur"] and k.get("max_dur") is kw["max_dur"]
-                      and isinstance(k.get("energy_threshold"), Absentable) and h.get("_audio_region_gen") is G, props=P1214)
+                      ok and k.get("input") == me and h.get("_audio_region_gen") is G, props=P1214 + ("C15",))
+            for K in KEYS:
+                eng.prove("C12:init:keyword-%s-reaches-split-unchanged" % K, ok and same_kw(kw[K], k.get(K)), props=P1214 + ("C15",))
             d = h.get("_detections")
             eng.prove("C12:init:empty-detection-list-own-inbox", isinstance(d, Seq) and d.kind == "list" and isinstance(d.n, int) and d.n == 0
                       and isinstance(h.get("_inbox"), Ref) and h.get("_reader") == rd and h.get("_observers") is obs, props=P12)
@@ -729,8 +754,7 @@ def unit_region_saver(sess, ctx):
     def run_(eng):
         gh = eng.st.ghost
         saves, fmts = [], []
-        meta = eng.st.new_obj("IMeta", {"start": Fl(Real("start")), "end": Fl(Real("end"))})
-        reg = eng.st.new_obj("IRegion", {"meta": meta, "duration": Fl(Real("duration"))})
+        meta, reg = detection_obj(eng)
         eng.iface[("IRegion", "save")] = lambda e, o, a, k: saves.append((o, tuple(a), dict(k))) or Opq(tag="str")
         tpl, named = Opq(tag="str"), Opq(tag="str")
 
@@ -767,8 +791,7 @@ def unit_print_worker(sess, ctx):
     def run_(eng):
         gh = eng.st.ghost
         fmts, fcalls = [], []
-        meta = eng.st.new_obj("IMeta", {"start": Fl(Real("start")), "end": Fl(Real("end")), "timestamp": Opq(tag="time")})
-        reg = eng.st.new_obj("IRegion", {"meta": meta, "duration": Fl(Real("duration"))})
+        meta, reg = detection_obj(eng, with_ts=True)
         tpl, line = Opq(tag="str"), Opq(tag="str")
 
         def opq_method(e, obj, name, a, k):
